@@ -423,13 +423,71 @@ func WaitUntil(kind string, cond func() bool) {
 // ---------------------------------------------------------------------------------------------
 // channels
 
+// Running free (no scheduler) other goroutines really run in parallel: between "the buffer is
+// empty" and the closedness probe a sender may slip a value in, and the probe - a real receive -
+// takes it. Such a value is not lost: it is parked here and handed to the next receive on that
+// channel (recvReady reports the channel ready while something is parked). Under the scheduler
+// only one thread runs at a time and this cannot happen.
+var freeStash sync.Map // channel pointer -> *stash
+
+type stash struct {
+	mu   sync.Mutex
+	vals []reflect.Value
+}
+
+func stashed(ptr uintptr) *stash {
+	if q, ok := freeStash.Load(ptr); ok {
+		return q.(*stash)
+	}
+	return nil
+}
+
+func stashPop(ptr uintptr) (reflect.Value, bool) {
+	q := stashed(ptr)
+	if q == nil {
+		return reflect.Value{}, false
+	}
+	q.mu.Lock()
+	defer q.mu.Unlock()
+	if len(q.vals) == 0 {
+		return reflect.Value{}, false
+	}
+	v := q.vals[0]
+	q.vals = q.vals[1:]
+	return v, true
+}
+
+func stashLen(ptr uintptr) int {
+	q := stashed(ptr)
+	if q == nil {
+		return 0
+	}
+	q.mu.Lock()
+	defer q.mu.Unlock()
+	return len(q.vals)
+}
+
 func recvReady(v reflect.Value) bool {
+	if S == nil && stashLen(v.Pointer()) > 0 {
+		return true
+	}
 	if v.Len() > 0 {
 		return true
 	}
 	if v.Cap() > 0 {
 		// buffered and empty: ready only if closed; a probe on an open empty channel returns !ok without value
 		x, ok := v.TryRecv()
+		if x.IsValid() && ok {
+			if S != nil {
+				fmt.Fprintln(os.Stderr, "HARNESS-ERROR: a value appeared in an empty channel while a single thread was running")
+				os.Exit(2)
+			}
+			q, _ := freeStash.LoadOrStore(v.Pointer(), &stash{})
+			q.(*stash).mu.Lock()
+			q.(*stash).vals = append(q.(*stash).vals, x)
+			q.(*stash).mu.Unlock()
+			return true
+		}
 		return x.IsValid() && !ok
 	}
 	x, ok := v.TryRecv()
@@ -457,17 +515,16 @@ func Send[T any](ch chan<- T, v T) {
 }
 
 func Recv[T any](ch <-chan T) T {
-	if S != nil {
-		rv := reflect.ValueOf(ch)
-		point(&op{kind: "recv", enabled: func() bool { return recvReady(rv) }, obj: rv.Pointer()})
-	}
-	return <-ch
+	v, _ := Recv2(ch)
+	return v
 }
 
 func Recv2[T any](ch <-chan T) (T, bool) {
 	if S != nil {
 		rv := reflect.ValueOf(ch)
 		point(&op{kind: "recv", enabled: func() bool { return recvReady(rv) }, obj: rv.Pointer()})
+	} else if x, ok := stashPop(reflect.ValueOf(ch).Pointer()); ok {
+		return x.Interface().(T), true
 	}
 	v, ok := <-ch
 	return v, ok
@@ -544,8 +601,20 @@ func Select(hasDefault bool, cases ...Case) int {
 	return r[o.alt%len(r)]
 }
 
-func RecvNow[T any](ch <-chan T) T          { return <-ch }
-func Recv2Now[T any](ch <-chan T) (T, bool) { v, ok := <-ch; return v, ok }
+func RecvNow[T any](ch <-chan T) T {
+	v, _ := Recv2Now(ch)
+	return v
+}
+
+func Recv2Now[T any](ch <-chan T) (T, bool) {
+	if S == nil {
+		if x, ok := stashPop(reflect.ValueOf(ch).Pointer()); ok {
+			return x.Interface().(T), true
+		}
+	}
+	v, ok := <-ch
+	return v, ok
+}
 func SendNow[T any](ch chan<- T, v T)       { ch <- v }
 
 // ---------------------------------------------------------------------------------------------
